@@ -783,8 +783,16 @@ func partB(r *vcommon.Run, client *httplib.Client, set *canarySet, plan *bPlan) 
 	r.Set("header_names_in_code", inCode)
 	r.Set("request_dump_cases", len(cases))
 	r.Set("log_lines_scanned", len(lines))
-	if len(lines) > 0 {
-		r.Sample(map[string]any{"log_line": vcommon.Short(lines[0], 400)})
+	if d, ok := dumps[plan.lenCases[0].marker]; ok { // a fixed case, without the ephemeral addresses
+		if i := strings.Index(d, "[c->s] "); i >= 0 {
+			d = d[i:]
+		}
+		if i := strings.Index(d, "Host: "); i >= 0 {
+			if j := strings.Index(d[i:], "\r\n"); j >= 0 {
+				d = d[:i] + "Host: (listener)" + d[i+j:]
+			}
+		}
+		r.Sample(map[string]any{"log_line": vcommon.Short(d, 400)})
 	}
 }
 
